@@ -123,11 +123,22 @@ def run(ctx, exe, tier, seed, draws=None):
     if not ok and not bad and not crashes:
         ctx.machinery_errors.append("NetParamsTrace rejected the result log "
                                     "although no case failed:\n" + v["out"][-2500:])
+    # a function that fails its own direct case explains every round trip /
+    # chain / n-vs-2 case it takes part in: report it once, at the source
+    direct_bad = set()
+    for r in bad:
+        if r["failed"] > 0 and r["kind"] in ("conv2", "convn", "zin2", "zinn"):
+            direct_bad |= set(_members(r))
     for r in bad:
         key = r["case"].split(":", 2)[2]
         fn = _fn_label(r)
         if r["decided"] == 0:
             ctx.machinery_errors.append("C04 case never decided: " + r["case"])
+            continue
+        if r["kind"] not in ("conv2", "convn", "zin2", "zinn") and \
+                direct_bad & set(_members(r)):
+            stats["explained_by_direct_failure"] = \
+                stats.get("explained_by_direct_failure", 0) + 1
             continue
         sig = "NetParams:%s:%s:%s" % (r["kind"], fn, r["what"])
         rp = ctx.save_replay("netparams-%s.json" % common.sig_hash(sig + r["z0"]), r)
@@ -142,6 +153,28 @@ def run(ctx, exe, tier, seed, draws=None):
     for r in rows[:3]:
         ctx.sample(r)
     return issues, stats
+
+
+def _members(r):
+    """names of the vnaconv functions a case calls"""
+    let = {"S": "s", "T": "t", "U": "u", "Z": "z", "Y": "y", "H": "h",
+           "G": "g", "A": "a", "B": "b", "ZIN": "zi"}
+    f, v, t = r["from"], r["via"], r["to"]
+    k = r["kind"]
+    if k in ("conv2", "zin2"):
+        return ["%sto%s" % (let[f], let[t])]
+    if k in ("convn", "zinn"):
+        return ["%sto%sn" % (let[f], let[t])]
+    if k == "round2":
+        return ["%sto%s" % (let[f], let[v]), "%sto%s" % (let[v], let[f])]
+    if k == "roundn":
+        return ["%sto%sn" % (let[f], let[v]), "%sto%sn" % (let[v], let[f])]
+    if k == "chain2":
+        return ["%sto%s" % (let[f], let[v]), "%sto%s" % (let[v], let[t]),
+                "%sto%s" % (let[f], let[t])]
+    if k == "nvs2":
+        return ["%sto%s" % (let[f], let[t]), "%sto%sn" % (let[f], let[t])]
+    return []
 
 
 def _fn_label(r):
